@@ -56,9 +56,9 @@ Proof.
   eapply mapM_sound_concat; [|exact E1]. intros a b Hab. cbv beta. symmetry. now apply semgrep_run_sound.
 Qed.
 
-Lemma codeql_result_sound run result fs :
-  codeql_result run result = Some fs ->
-  fs = flat_map (fun loc => match codeql_location (rule_of run result) loc with Some f => [f] | None => [] end)
+Lemma codeql_result_sound (scd : sc_default) run result fs :
+  codeql_result scd run result = Some fs ->
+  fs = flat_map (fun loc => match codeql_location scd (rule_of run result) loc with Some f => [f] | None => [] end)
                 (arr_of (jget s_locations result)).
 Proof.
   unfold codeql_result. intros H. unbind H.
@@ -66,11 +66,11 @@ Proof.
   eapply mapM_sound; [|exact H]. intros a b Hab. cbv beta. rewrite Hab. reflexivity.
 Qed.
 
-Lemma codeql_run_sound run fs :
-  codeql_run run = Some fs ->
+Lemma codeql_run_sound (scd : sc_default) run fs :
+  codeql_run scd run = Some fs ->
   fs = if is_codeql run then
          flat_map (fun result =>
-           flat_map (fun loc => match codeql_location (rule_of run result) loc with Some f => [f] | None => [] end)
+           flat_map (fun loc => match codeql_location scd (rule_of run result) loc with Some f => [f] | None => [] end)
                     (arr_of (jget s_locations result))) (arr_of (jget s_results run))
        else [].
 Proof.
@@ -80,7 +80,7 @@ Proof.
   - now inversion H.
 Qed.
 
-Theorem codeql_reader_sound doc fs : codeql_reader doc = Some fs -> fs = codeql_spec doc.
+Theorem codeql_reader_sound (scd : sc_default) doc fs : codeql_reader scd doc = Some fs -> fs = codeql_spec scd doc.
 Proof.
   unfold codeql_reader, codeql_spec. intros H. unbind H. inversion H; subst. apply jarr_some in E0. subst. simpl arr_of.
   eapply mapM_sound_concat; [|exact E1]. intros a b Hab. cbv beta. symmetry. now apply codeql_run_sound.
@@ -93,9 +93,9 @@ Proof.
 Qed.
 
 (** A foreign run (another tool) next to a CodeQL run does not disturb the CodeQL findings. *)
-Lemma codeql_spec_app runs1 runs2 :
-  codeql_spec (JObj [(s_runs, JArr (runs1 ++ runs2))]) =
-  codeql_spec (JObj [(s_runs, JArr runs1)]) ++ codeql_spec (JObj [(s_runs, JArr runs2)]).
+Lemma codeql_spec_app (scd : sc_default) runs1 runs2 :
+  codeql_spec scd (JObj [(s_runs, JArr (runs1 ++ runs2))]) =
+  codeql_spec scd (JObj [(s_runs, JArr runs1)]) ++ codeql_spec scd (JObj [(s_runs, JArr runs2)]).
 Proof.
   assert (Hg : forall v, jget s_runs (JObj [(s_runs, v)]) = Some v) by (intros v; reflexivity).
   unfold codeql_spec. rewrite !Hg. simpl arr_of. now rewrite flat_map_app.
@@ -168,10 +168,10 @@ Proof.
   f_equal. now apply semgrep_reader_sound.
 Qed.
 
-Lemma codeql_result_readable run result :
-  is_some (codeql_result run result) =
+Lemma codeql_result_readable (scd : sc_default) run result :
+  is_some (codeql_result scd run result) =
   match extract_rule_id result run with
-  | Some rule => all_arr (jget s_locations result) (fun loc => is_some (codeql_location rule loc))
+  | Some rule => all_arr (jget s_locations result) (fun loc => is_some (codeql_location scd rule loc))
   | None => false
   end.
 Proof.
@@ -180,13 +180,13 @@ Proof.
   destruct (jget s_locations result) as [[| | | |l|]|]; try reflexivity. apply mapM_is_some.
 Qed.
 
-Lemma codeql_run_readable run :
-  is_some (codeql_run run) =
+Lemma codeql_run_readable (scd : sc_default) run :
+  is_some (codeql_run scd run) =
   match codeql_detect run with
   | Some true =>
       all_arr (jget s_results run) (fun result =>
         match extract_rule_id result run with
-        | Some rule => all_arr (jget s_locations result) (fun loc => is_some (codeql_location rule loc))
+        | Some rule => all_arr (jget s_locations result) (fun loc => is_some (codeql_location scd rule loc))
         | None => false
         end)
   | Some false => true
@@ -196,24 +196,24 @@ Proof.
   unfold codeql_run. destruct (codeql_detect run) as [[|]|]; cbn [bind]; try reflexivity.
   rewrite is_some_bind_jarr. unfold all_arr at 1.
   destruct (jget s_results run) as [[| | | |l|]|]; try reflexivity.
-  transitivity (is_some (mapM (codeql_result run) l)).
-  - destruct (mapM (codeql_result run) l); reflexivity.
+  transitivity (is_some (mapM (codeql_result scd run) l)).
+  - destruct (mapM (codeql_result scd run) l); reflexivity.
   - rewrite mapM_is_some. apply forallb_ext_in. intros x. apply codeql_result_readable.
 Qed.
 
-Lemma codeql_reader_readable doc : is_some (codeql_reader doc) = readable_codeql doc.
+Lemma codeql_reader_readable (scd : sc_default) doc : is_some (codeql_reader scd doc) = readable_codeql scd doc.
 Proof.
   unfold codeql_reader, readable_codeql. rewrite is_some_bind_jarr. unfold all_arr at 1.
   destruct (jget s_runs doc) as [[| | | |l|]|]; try reflexivity.
-  transitivity (is_some (mapM codeql_run l)).
-  - destruct (mapM codeql_run l); reflexivity.
+  transitivity (is_some (mapM (codeql_run scd) l)).
+  - destruct (mapM (codeql_run scd) l); reflexivity.
   - rewrite mapM_is_some. apply forallb_ext_in. intros x. apply codeql_run_readable.
 Qed.
 
-Theorem codeql_reader_exact doc :
-  codeql_reader doc = if readable_codeql doc then Some (codeql_spec doc) else None.
+Theorem codeql_reader_exact (scd : sc_default) doc :
+  codeql_reader scd doc = if readable_codeql scd doc then Some (codeql_spec scd doc) else None.
 Proof.
-  rewrite <- codeql_reader_readable. destruct (codeql_reader doc) as [fs|] eqn:E; simpl; [|reflexivity].
+  rewrite <- codeql_reader_readable. destruct (codeql_reader scd doc) as [fs|] eqn:E; simpl; [|reflexivity].
   f_equal. now apply codeql_reader_sound.
 Qed.
 
